@@ -186,10 +186,10 @@ def run(rep, F, D_int, D_con, tier):
         rep.floor("R2.7", "%s pairs tabulated" % name, done[name], TABULATED[name])
 
 
-def tabulate(rep, F, D, inst, fn, key, a, b, ref):
-    ex = Symex(F, no_inline=HELPERS + [r"Relate::relate$", r"::to_polygon$", r"coordinate_position$", r"::orient2d$"], max_paths=20000, mono=D.M, budget_s=60, concrete_iters=True, loop_bound=6)
+def tabulate(rep, F, D, inst, fn, key, a, b, ref, rule="R2.7", args=None, env_of=None, va_list=None, vb_list=None, calls=None):
+    ex = Symex(F, no_inline=HELPERS + [r"Relate::relate$", r"::to_polygon$", r"coordinate_position$", r"::orient2d$"], max_paths=20000, mono=D.M, budget_s=60, concrete_iters=True, loop_bound=8)
     try:
-        paths = ex.run(fn, inst=inst)
+        paths = ex.run(fn, inst=inst, args=args)
     except Unanalysable as e:
         rep.info.setdefault("small_pairs_not_tabulated", []).append("%s (%s)" % (key, str(e)[:60]))
         return False
@@ -200,27 +200,124 @@ def tabulate(rep, F, D, inst, fn, key, a, b, ref):
     # calls that stay uninterpreted (relate, to_polygon ...) make the pair a non-kernel: not tabulated here
     tree = Tree(rets)
     n = 0
-    for va in values(a, "a"):
-        for vb in values(b, "b"):
-            ev = Evaluator(F, {("arg", 1): va, ("arg", 2): vb}, CALLS)
+    for va in (va_list if va_list is not None else values(a, "a")):
+        for vb in (vb_list if vb_list is not None else values(b, "b")):
+            ev = Evaluator(F, env_of(va, vb) if env_of else {("arg", 1): va, ("arg", 2): vb}, calls or CALLS)
             try:
                 hit = tree.select(ev)
                 if len(hit) != 1:
-                    rep.bad("R2.7", key, "witness %s / %s selects %d rows of the decision table" % (fmt(va), fmt(vb), len(hit)), where=fn.loc())
+                    rep.bad(rule, key, "witness %s / %s selects %d rows of the decision table" % (fmt(va), fmt(vb), len(hit)), where=fn.loc())
                     return True
                 got = bool(ev.ev(hit[0].ret))
             except NoModel as e:
                 if n == 0:
                     rep.info.setdefault("small_pairs_not_tabulated", []).append("%s (%s)" % (key, str(e)[:60]))
                     return False
-                rep.bad("R2.7", key + ":non-abstractable", "a decision is not a function of orientation signs, coordinate comparisons and verified helpers (%s)" % e, where=fn.loc())
+                rep.bad(rule, key + ":non-abstractable", "a decision is not a function of orientation signs, coordinate comparisons and verified helpers (%s)" % e, where=fn.loc())
                 return True
             want = ref(a, va, b, vb)
             n += 1
             if got != want:
-                rep.bad("R2.7", key, "%s %s, %s %s: the decision table of the selected impl gives %s, exact geometry gives %s  [row: %s]" % (
+                rep.bad(rule, key, "%s %s, %s %s: the decision table of the selected impl gives %s, exact geometry gives %s  [row: %s]" % (
                     a, fmt(va), b, fmt(vb), got, want, show_pc(hit[0].pc)[:300]), where=fn.loc(),
                     detail={"self": fmt(va), "other": fmt(vb), "got": got, "want": want})
                 return True
-    rep.ok("R2.7", "%s[%d witnesses, %d rows]" % (key, n, len(rets)), sample={"pair": key, "witnesses": n, "rows": len(rets)})
+    rep.ok(rule, "%s[%d witnesses, %d rows]" % (key, n, len(rets)), sample={"pair": key, "witnesses": n, "rows": len(rets)})
     return True
+
+
+
+# ---------------------------------------------------------------- line strings of a concrete size (R2.10)
+def ls_segments(cs):
+    return [(cs[i], cs[i + 1]) for i in range(len(cs) - 1)]
+
+
+def ref_intersects_ls(ka, a, kb, b):
+    """a and/or b may be a list of coordinates (a line string); the others are the convex kinds"""
+    def parts(k, v):
+        if k.startswith("LineString"):
+            return [("Line", {"start": s_, "end": e_}) for s_, e_ in ls_segments(v)]
+        return [(k, v)]
+    return any(ref_intersects(k1, v1, k2, v2) for k1, v1 in parts(ka, a) for k2, v2 in parts(kb, b))
+
+
+def _bbox_model(ev, args):
+    """BoundingRect::bounding_rect of a witness value, as Option<Rect> (R19.8 / R2.9 decide bounding_rect itself)"""
+    from ..evalterm import Enum
+    v = ev.ev(args[0])
+    cs = []
+
+    def walk(x):
+        if isinstance(x, dict):
+            if "x" in x and "y" in x and len(x) == 2:
+                cs.append(x)
+            else:
+                for y in x.values():
+                    walk(y)
+        elif isinstance(x, (list, tuple)):
+            for y in x:
+                walk(y)
+    walk(v)
+    if not cs:
+        return Enum("core::option::Option", "None")
+    return Enum("core::option::Option", "Some", [{"min": C(min(c["x"] for c in cs), min(c["y"] for c in cs)), "max": C(max(c["x"] for c in cs), max(c["y"] for c in cs))}])
+
+
+LS_CALLS = dict(CALLS)
+LS_CALLS["vec!"] = lambda ev, args: ev.ev(args[0])
+LS_CALLS["geo::algorithm::bounding_rect::BoundingRect::bounding_rect"] = _bbox_model
+
+
+def run_linestring(rep, F, D_int, tier, rule="R2.10"):
+    """Intersects between a LineString of 2 / 3 coordinates (exact unrolling of the member loop, bounding-box rejection included) and Coord,
+    Point, Line, Rect, Triangle and a second LineString, in both operand orders: the decision table of the impl rustc selects agrees with
+    "some segment of the line string meets the other operand" on every witness."""
+    rep.rule(rule, "Intersects with a LineString operand of 2 / 3 coordinates (exact unrolling; both operand orders; Coord, Point, Line, Rect, Triangle, LineString): the decision table agrees with `some segment meets the other operand` on every witness")
+    GTY = "geo_types::geometry::"
+    LS = GTY + "line_string::LineString"
+
+    def ls_arg(n, tag):
+        return ("&", ("adt", LS, "LineString", (("call", "vec!", (("array", tuple(("opaque", "%s%d" % (tag, i)) for i in range(n))),)),)))
+    sub = [C(0, 0), C(2, 1), C(1, 2), C(3, 3), C(0, 2)]
+
+    def ls_values(n):
+        out = [list(cs) for cs in itertools.product(sub, repeat=n)]
+        return out if n == 2 else out[::3]
+    n_ok = 0
+    jobs = []
+    for other in [k for k in SMALL if k != "Rect"] + ["LineString"]:       # Rect pairs: too many rows (each coordinate forks on four bounds)
+        for n in (2, 3):
+            jobs.append(("LineString", n, other, 2 if other == "LineString" else None))
+            if other != "LineString":
+                jobs.append((other, None, "LineString", n))
+    for a, na, b, nb in jobs:
+        inst, fn = D_int.impl_instance(a, b)
+        key = "intersects:%s%s-%s%s" % (a, "/%d" % na if na else "", b, "/%d" % nb if nb else "")
+        if fn is None:
+            continue
+        args = [ls_arg(na, "p") if na else ("arg", 1), ls_arg(nb, "q") if nb else ("arg", 2)]
+
+        def env_of(va, vb, na=na, nb=nb):
+            env = {}
+            if na:
+                env.update({("opaque", "p%d" % i): va[i] for i in range(na)})
+            else:
+                env[("arg", 1)] = va
+            if nb:
+                env.update({("opaque", "q%d" % i): vb[i] for i in range(nb)})
+            else:
+                env[("arg", 2)] = vb
+            return env
+        va_list = ls_values(na) if na else values(a, "a")[::3]
+        vb_list = ls_values(nb) if nb else values(b, "b")[::3]
+        ka = "LineString" if na else a
+        kb = "LineString" if nb else b
+        rec = Recorder()
+        res = tabulate(rec, F, D_int, inst, fn, key, ka, kb, ref_intersects_ls, rule=rule, args=args, env_of=env_of, va_list=va_list, vb_list=vb_list, calls=LS_CALLS)
+        for kind, a_, kw in rec.log:
+            getattr(rep, kind)(*a_, **kw)
+        for k_, v_ in rec.info.items():
+            rep.info.setdefault(k_, []).extend(v_)
+        if res and not any(kind == "bad" for kind, _, _ in rec.log):
+            n_ok += 1
+    rep.floor(rule, "line-string intersects tables", n_ok, 12)
